@@ -1641,6 +1641,37 @@ class Interp:
             return obj.delitem(self, key)
         raise Unsupported("del item")
 
+    def symbolic_key_lookup(self, d, key):
+        """lookup of a symbolic key in a dict with CONCRETE keys (str / int / bool / None): returns (found, value), forking on
+        the key's type and on equality with each candidate key; python's rules: lists / dicts / sets are unhashable (TypeError),
+        True == 1 and False == 0 share a slot with the integers, 1.0 == 1 as well, a str never equals a number"""
+        key = self.view(key) if isinstance(key, SV) else key
+        if isinstance(key, (SSeq, SList, SSet)) or (isinstance(key, SDict)) or (isinstance(key, _Tagged) and key.tag in ("list", "dict")):
+            self.raise_(TypeError, f"unhashable type: '{'dict' if isinstance(key, SDict) or getattr(key, 'tag', '') == 'dict' else 'list'}'")
+        if key is None:
+            return (None in d.items), d.items.get(None)
+        if isinstance(key, SStr):
+            for k in list(d.items):
+                if isinstance(k, str) and self.branch(key.t == z3.StringVal(k)):
+                    return True, d.items[k]
+            return False, None
+        if isinstance(key, (SInt, SBool, SFloat)):
+            if isinstance(key, SFloat):
+                if not self.branch(key.k == self.Z.fk["fin"]):
+                    return False, None
+                num = key.r
+            elif isinstance(key, SBool):
+                num = z3.If(key.t, z3.RealVal(1), z3.RealVal(0))
+            else:
+                num = z3.ToReal(key.t)
+            for k in list(d.items):
+                if isinstance(k, (int, bool)) and self.branch(num == z3.RealVal(int(k))):
+                    return True, d.items[k]
+            return False, None
+        if isinstance(key, (str, int, bool)):
+            return (key in d.items), d.items.get(key)
+        raise Unsupported(f"symbolic dict key {key!r}")
+
     def hashable(self, key):
         if isinstance(key, (str, int, bool, tuple, frozenset, type)) or key is None:
             return key
@@ -2135,6 +2166,12 @@ class Interp:
                     return obj.items[key]
                 self.raise_(IndexError, "list index out of range")
             raise Unsupported("symbolic list index")
+        if isinstance(obj, SDict) and obj.rest is None and isinstance(key, (SV, SStr, SInt, SBool, SFloat, SSeq, _Tagged)) \
+                and all(isinstance(k, (str, int, bool)) or k is None for k in obj.items):
+            found, val = self.symbolic_key_lookup(obj, key)
+            if found:
+                return val
+            self.raise_(KeyError, "key")
         if isinstance(obj, SDict):
             k = self.hashable(key)
             if k in obj.items:
